@@ -32,6 +32,12 @@ Proof.
         apply N.eqb_eq in Hij. subst j. rewrite N.eqb_refl in Heq. discriminate.
 Qed.
 
+Lemma ids_eqb_eq a : forall b, ids_eqb a b = true -> a = b.
+Proof.
+  induction a as [|x a IH]; destruct b as [|y b]; cbn [ids_eqb]; intro H; try discriminate; [reflexivity|].
+  apply andb_true_iff in H. destruct H as [H1 H2]. apply N.eqb_eq in H1. subst. f_equal. apply IH. exact H2.
+Qed.
+
 Lemma udet_eqb_eq a b : udet_eqb a b = true -> a = b.
 Proof.
   destruct a, b; cbn [udet_eqb]; intro H; try discriminate; try reflexivity.
@@ -42,6 +48,7 @@ Proof.
   - apply N.eqb_eq in H. subst. reflexivity.
   - apply andb_true_iff in H. destruct H as [H1 H2].
     apply N.eqb_eq in H1. apply N.eqb_eq in H2. subst. reflexivity.
+  - apply ids_eqb_eq in H. subst. reflexivity.
   - apply ustr_eqb_eq in H. subst. reflexivity.
   - apply ustr_eqb_eq in H. subst. reflexivity.
 Qed.
@@ -543,6 +550,14 @@ Proof.
   - intro H. injection H as <-. destruct uq; reflexivity.
 Qed.
 
+Lemma tuple_len_inv items mni mxi uq : tuple_len_ok items mni mxi uq = true ->
+  mni = Some (N.of_nat (length items)) /\ mxi = Some (N.of_nat (length items)).
+Proof.
+  unfold tuple_len_ok. destruct mni as [a|], mxi as [b|]; try discriminate. intro H.
+  repeat (apply andb_true_iff in H; destruct H as [H ?]). apply N.eqb_eq in H.
+  match goal with X : (b =? a) = true |- _ => apply N.eqb_eq in X; subst b end. subst a. split; reflexivity.
+Qed.
+
 Lemma items_absent_true ik : items_absent ik = true -> ik = ItemsAbsent.
 Proof. destruct ik; try discriminate. reflexivity. Qed.
 
@@ -697,9 +712,13 @@ Section Main.
     kind_of_type fmt enum nv sv ik items mni mxi uq props req ap tt = Some k ->
     match k with KInt _ => True | _ => nv = numv_none end /\
     match k with KStrC mx mn pat => sv = mkStrv mx mn pat /\ strv_is_none sv = false | _ => sv = strv_none end /\
-    match k with KVec c | KVecAny c => seq_kind mni mxi uq = Some c | _ => mni = None /\ mxi = None end /\
+    match k with
+    | KVec c | KVecAny c => seq_kind mni mxi uq = Some c
+    | KTuple => tuple_len_ok items mni mxi uq = true
+    | _ => mni = None /\ mxi = None
+    end /\
     match k with KEnum _ => True | _ => enum = None end /\
-    match k with KVec _ | KVecAny _ => True | _ => ik = ItemsAbsent /\ items = [] end /\
+    match k with KVec _ | KVecAny _ | KTuple => True | _ => ik = ItemsAbsent /\ items = [] end /\
     match k with KStruct _ | KMap => True | _ => props = [] /\ req = [] /\ ap = None end /\
     match k with KInt _ => True | _ => fmt = None end /\
     match k with
@@ -712,6 +731,7 @@ Section Main.
     | KInt r => tt = TInteger /\ exists b, ibounds_of nv = Some b /\ r = choose_int fmt b
     | KStruct deny => tt = TObject /\ ap_simple ap = Some deny
     | KMap => tt = TObject /\ props = [] /\ req = [] /\ match ap with Some (SBool false) => False | _ => True end
+    | KTuple => tt = TArray /\ ik = ItemsTuple
     | KVec _ => tt = TArray /\ ik = ItemsSingle /\ exists it, items = [it]
     | KVecAny _ => tt = TArray /\ ik = ItemsAbsent /\ items = []
     end.
@@ -731,10 +751,15 @@ Section Main.
         * apply strv_is_none_true in Hs. subst. repeat split; reflexivity.
         * repeat split; try reflexivity; try exact Hs. destruct sv; reflexivity.
     - destruct (_ && _) eqn:Hc; [|discriminate]. bool_facts. subst.
-      destruct (seq_kind mni mxi uq) as [c|] eqn:Hsk; [|discriminate].
-      destruct ik; destruct items as [|it [|it2 items]]; intro H; try discriminate; injection H as <-.
-      + repeat split; reflexivity.
-      + repeat split; try reflexivity. exists it. reflexivity.
+      destruct ik.
+      + destruct (seq_kind mni mxi uq) as [c|] eqn:Hsk; [|discriminate].
+        destruct items as [|it [|it2 items]]; intro H; try discriminate; injection H as <-.
+        repeat split; reflexivity.
+      + destruct (seq_kind mni mxi uq) as [c|] eqn:Hsk; [|discriminate].
+        destruct items as [|it [|it2 items]]; intro H; try discriminate; injection H as <-.
+        repeat split; try reflexivity. exists it. reflexivity.
+      + destruct (tuple_len_ok items mni mxi uq) eqn:Htl; intro H; [|discriminate]. injection H as <-.
+        repeat split; reflexivity.
     - destruct (_ && _) eqn:Hc; [|discriminate]. bool_facts. subst.
       destruct (is_nil props && is_nil req && negb _) eqn:E.
       + intro H. injection H as <-. bool_facts. subst. repeat split; try reflexivity.
@@ -752,10 +777,17 @@ Section Main.
         keys_sorted (map fst props) && forallb (fun r => has_key r props) req
         && Sanitize.unique (field_idents cls props) && forallb (fun kv => frag cls keys (snd kv)) props
     | KMap => match ap with Some (SBool true) | None => true | Some vs => frag cls keys vs end
-    | KVec _ => forallb (frag cls keys) items
+    | KVec _ | KTuple => forallb (frag cls keys) items
     | KRef r => mem_ustr r keys
     | _ => true
     end.
+
+  Definition idx_names (nm' : name) : list schema -> nat -> list ustring :=
+    fix go (l : list schema) (i : nat) {struct l} : list ustring :=
+      match l with
+      | [] => []
+      | it :: r => names_of cls it (idx_name nm' i) ++ go r (S i)
+      end.
 
   Definition sub_names (k : kind) (nm' : name) (items : list schema) (props : list (ustring * schema))
              (ap : option schema) : list ustring :=
@@ -763,6 +795,7 @@ Section Main.
     | KStruct _ => match type_name cls nm' with Some base => prop_names base props | None => [] end
     | KMap => match ap with Some vs => names_of cls vs (value_name nm') | None => [] end
     | KVec c => flat_map (fun it => names_of cls it (seq_item_name cls c nm')) items
+    | KTuple => idx_names nm' items 0%nat
     | _ => []
     end.
 
@@ -912,6 +945,22 @@ Section Main.
     - exfalso. exact (conv_prop_total base req k s' s0 HT1 Hf1 Hp).
   Qed.
 
+  Lemma idx_name_some nm i : name_opt nm <> None -> name_opt (idx_name nm i) <> None.
+  Proof. destruct nm; cbn [idx_name name_opt]; try discriminate. intro H; exact H. Qed.
+
+  Lemma conv_items_total nm : name_opt nm <> None -> forall l,
+    Forall Tot l -> forallb (frag cls keys) l = true ->
+    forall i s0, conv_items cvf nm i l s0 <> None.
+  Proof.
+    intros Hnm. induction l as [|it l IH]; intros HT Hf i s0; cbn [conv_items]; [discriminate|].
+    cbn [forallb] in Hf. apply andb_true_iff in Hf. destruct Hf as [Hf1 Hf2].
+    destruct (cvf it (idx_name nm i) s0) as [[te s1]|] eqn:Hc.
+    - destruct (assign te s1) as [t s2].
+      destruct (conv_items cvf nm (S i) l s2) as [[ts s3]|] eqn:Hr; [discriminate|].
+      exfalso. exact (IH (Forall_inv_tail HT) Hf2 (S i) s2 Hr).
+    - exfalso. exact (Forall_inv HT Hf1 _ _ (idx_name_some nm i Hnm) Hc).
+  Qed.
+
   Lemma conv_kind_total items props req ap k nm s0 :
     frag_kind k items props req ap = true ->
     Forall Tot items -> Forall (fun kv => Tot (snd kv)) props -> OForall Tot ap ->
@@ -921,7 +970,7 @@ Section Main.
   Proof.
     intros Hfk HTi HTp HTa Hshape Hnm.
     destruct (type_name_some nm Hnm) as (n & Hn).
-    destruct k as [| | | |mx mn pat|r|raws|deny| |c|c|r|]; cbn [conv_kind]; try discriminate.
+    destruct k as [| | | |mx mn pat|r|raws|deny| | |c|c|r|]; cbn [conv_kind]; try discriminate.
     - (* KStrC *)
       destruct (assign DString _). rewrite Hn. discriminate.
     - (* KEnum *)
@@ -948,6 +997,10 @@ Section Main.
           destruct vs as [[|]|]; [discriminate Hc|discriminate Hfk|].
           exact (HTa Hfk _ _ Hv Hc).
       + destruct (assign DJsonValue (set_json sk)). discriminate.
+    - (* KTuple *)
+      cbn [frag_kind] in Hfk.
+      destruct (conv_items cvf nm 0 items s0) as [[ts s1]|] eqn:Hc; [discriminate|].
+      exfalso. exact (conv_items_total nm Hnm items HTi Hfk 0%nat s0 Hc).
     - (* KVec *)
       destruct Hshape as (it & ->). cbn [frag_kind forallb] in Hfk. rewrite andb_true_r in Hfk.
       pose proof (Forall_inv HTi) as HT1.
